@@ -209,7 +209,7 @@ func vC16RunStruct(k *vKit, c vSx) {
 		}
 		idx := k.record(cc, obs, true)
 		k.count("kind", "jws-compact-parse")
-		k.count("jws-parse", fmt.Sprint(obs.l[0].i64(), obs.l[1:]))
+		k.count("jws-parse", fmt.Sprint(obs.l[0].i64()))
 		if obs.l[0].i64() == 2 {
 			fail(idx, "parse-no-panic", fmt.Sprintf("ParseSigned(%q) panicked", t))
 		}
@@ -389,7 +389,7 @@ func vC16GenStruct(k *vKit, r *vRng) vSx {
 		ks := r.pickInt(32, 48, 66)
 		return vL(vZ(15), vB(r.bytes(2*ks+r.pickInt(0, 0, 0, 1, -1, -ks, ks, -2*ks))), vI(ks))
 	case 7:
-		return vL(vZ(16), vZ(int64(r.pickInt(3, 17, 65537, 1, 256, 65536, 16777217))), vBig(new(big.Int).SetBytes(r.bytes(r.pickInt(1, 128, 256)))))
+		return vL(vZ(16), vZ(int64(r.pickInt(3, 17, 65537, 1, 256, 65536, 16777217, 0))), vBig(new(big.Int).SetBytes(r.bytes(r.pickInt(1, 128, 256)))))
 	case 8:
 		c := vC16Curves()[r.intn(3)]
 		n := (c.Params().BitSize + 7) / 8
@@ -403,6 +403,9 @@ func vC16GenStruct(k *vKit, r *vRng) vSx {
 	case 9:
 		return vL(vZ(19), vB(r.bytes(r.pickInt(0, 8, 11, 12, 13, 16, 17, 32))), vI(r.pickInt(12, 16)))
 	case 10:
+		if len(vC16PoolJWS) > 0 && r.chance(2, 3) {
+			return vL(vZ(3), vS(vC16Mutate(r, vC16PoolJWS[r.intn(len(vC16PoolJWS))])))
+		}
 		// random dotted text
 		var parts []string
 		for i, n := 0, r.pickInt(1, 2, 3, 3, 4); i < n; i++ {
@@ -410,6 +413,9 @@ func vC16GenStruct(k *vKit, r *vRng) vSx {
 		}
 		return vL(vZ(3), vS(strings.Join(parts, ".")))
 	default:
+		if len(vC16PoolJWE) > 0 && r.chance(2, 3) {
+			return vL(vZ(4), vS(vC16Mutate(r, vC16PoolJWE[r.intn(len(vC16PoolJWE))])))
+		}
 		var parts []string
 		for i, n := 0, r.pickInt(3, 4, 5, 5, 5, 6); i < n; i++ {
 			parts = append(parts, string(vC16RandText(r, r.intn(12))))
@@ -445,10 +451,12 @@ func TestVerifC16(t *testing.T) {
 		}
 	}
 	vC16Fixed(k)
+	vC16JWKFuzz(k)
 	for b := 0; b <= 48; b++ {
 		runOne(vL(vZ(1), vB(k.rnd.bytes(b))))
 	}
 	vC16Matrix(k)
+	vC16Crafted(k)
 	n := k.N(3000, 60000)
 	for i := 0; i < n; i++ {
 		runOne(vC16GenStruct(k, k.rnd))
